@@ -193,7 +193,7 @@ def run(ctx):
                              "of checks/C21.py: run `python3 checks/C21.py --regen` and review"
                              % (stale, corpus.PY, consts["version"]))
   cfg = "MC_Ident_%s.cfg" % ctx.tier
-  inputs, model = fnspec.enumerate_inputs("MC_Ident", cfg, ctx.workdir)
+  inputs, model = fnspec.enumerate_inputs("MC_Ident", cfg, ctx.workdir, timeout=3600)
   ctx.log("TLC enumerated %d inputs (%d distinct states) in %.1fs" % (len(inputs), model["distinct"], model["wall"]))
   if len(inputs) != model["distinct"]:
     raise tlc.MachineryError("input file has %d inputs, TLC found %d states" % (len(inputs), model["distinct"]))
